@@ -117,6 +117,7 @@ def run(ctx):
     ctx.cov["rule"] = ("script = fork stage (Map/FMap/Filter/Partition/ForEach/Void) with par in {1,2,3,4,8}, gated user functions whose release order is part of the script, "
                        "sends/close/receives interleaved, optional cancel; non-trivial = par >= 2 and at least two completed sends; distinct by script text")
     ctx.assumptions += ls.ASSUME + ["data-race freedom is NOT expressible in the model: supported only by -race stress runs (thorough tier) and the model's structure (workers share nothing but channels and the WaitGroup)"]
+    ls.regen_stages(ctx, pipe=False, fork=True)
     ctx.prove()
     if ctx.thorough():
         ctx.leanchecker()
